@@ -628,9 +628,9 @@ int expr_conv_ass_type(expr * value, expr * expr_left, expr * expr_right)
         else if (expr_right->comb.comb == COMB_TYPE_DOUBLE)
         {
             expr_conv(expr_right, CONV_DOUBLE_TO_INT);
-            value->comb.comb = COMB_TYPE_DOUBLE;
+            value->comb.comb = COMB_TYPE_INT;
 
-            print_warning_msg(value->line_no, "converted int to double");
+            print_warning_msg(value->line_no, "converted double to int");
         }
         else if (expr_right->comb.comb == COMB_TYPE_ENUMTYPE)
         {
